@@ -5,9 +5,11 @@ import (
 	"context"
 	"encoding/json"
 	"fmt"
+	"github.com/DATA-DOG/go-sqlmock"
 	"regexp"
 	"sort"
 	"strings"
+	"sync"
 
 	"ariga.io/atlas/sql/migrate"
 	"ariga.io/atlas/sql/mysql"
@@ -37,10 +39,35 @@ func planner(d *dfu.Dialect) migrate.PlanApplier {
 }
 
 func dialect(n string) *dfu.Dialect {
-	if n == "mysql" {
+	if n == "mysql" || n == "tidb" {
 		return dfu.MySQL
 	}
 	return dfu.Postgres
+}
+
+// the TiDB planner: the MySQL driver opened on a mocked connection that reports a TiDB version
+// (planning issues no queries; one driver serves all cases).
+var (
+	tidbOnce    sync.Once
+	tidbPlanner migrate.PlanApplier
+	tidbErr     error
+)
+
+func plannerOf(c Case) (migrate.PlanApplier, error) {
+	if c.Dialect != "tidb" {
+		return planner(dialect(c.Dialect)), nil
+	}
+	tidbOnce.Do(func() {
+		db, m, err := sqlmock.New()
+		if err != nil {
+			tidbErr = err
+			return
+		}
+		m.ExpectQuery("SELECT @@version").WillReturnRows(sqlmock.NewRows([]string{"@@version", "@@collation_server", "@@character_set_server", "@@lower_case_table_names"}).
+			AddRow("5.7.25-TiDB-v6.1.0", "utf8mb4_bin", "utf8mb4", 2))
+		tidbPlanner, tidbErr = mysql.Open(db)
+	})
+	return tidbPlanner, tidbErr
 }
 
 func base(d *dfu.Dialect) *schema.Schema {
@@ -326,7 +353,11 @@ func Eval(c Case) (problems []string, planErr string, nstmts int) {
 			o.SchemaQualifier = &q
 		}
 	}}
-	plan, err := planner(d).PlanChanges(context.Background(), "p", changes, opts...)
+	pl, err := plannerOf(c)
+	if err != nil {
+		return nil, "harness: " + err.Error(), 0
+	}
+	plan, err := pl.PlanChanges(context.Background(), "p", changes, opts...)
 	if wantErr && c.Qualifier != "<none>" {
 		if err == nil {
 			// a schema-level / cross-schema change set was planned: its statements are judged like any other.
@@ -380,11 +411,20 @@ func cases(tier string) []Case {
 			}
 		}
 	}
+	// the TiDB planner plans change by change: the scope is a property of the whole change set.
+	for _, q := range quals {
+		for _, k := range []string{"create_all", "drop_all", "two_schemas", "two_schemas_drop_modify", "fk_to_other_schema", "drop_fk_to_other_schema", "rename_table_across_schemas", "add_schema", "drop_schema"} {
+			cs = append(cs, Case{"tidb", k, nil, q, int(migrate.PlanModeUnset)})
+		}
+		for _, e := range dfu.Edits(dfu.MySQL) {
+			cs = append(cs, Case{"tidb", "edits", []string{e.Name}, q, int(migrate.PlanModeUnset)})
+		}
+	}
 	return cs
 }
 
 func Run(r *report.Run) {
-	r.Rule = "MySQL and PostgreSQL planners (connection-less DefaultPlan); one schema named with a unique marker; change sets from the real differ: every single edit of the differ universe (thorough: every compatible pair), create-all, drop-all, plus hand-built schema-level / two-schema change sets; x qualifier {not requested, empty, custom, the name of either schema involved} x plan mode {unset, in-place, deferred, dump}; every Cmd and every reverse statement is tokenised by our own quoted-identifier scanner; plus the `sql` template function of `schema inspect` / `schema diff` (cmd/atlas/internal/cmdlog, reached by a harness compiled into that module with go build -overlay): MySQL / PostgreSQL x connection bound to one schema or not x indent {none, two spaces, tab} x {inspect, diff}: a bound connection prints no schema name; non-trivial = case whose plan has >=1 statement; distinct = (dialect, change set, qualifier, mode)"
+	r.Rule = "MySQL and PostgreSQL planners (connection-less DefaultPlan) and the TiDB planner (MySQL driver on a mocked TiDB connection; it plans change by change, default plan mode); one schema named with a unique marker; change sets from the real differ: every single edit of the differ universe (thorough: every compatible pair), create-all, drop-all, plus hand-built schema-level / two-schema change sets; x qualifier {not requested, empty, custom, the name of either schema involved} x plan mode {unset, in-place, deferred, dump}; every Cmd and every reverse statement is tokenised by our own quoted-identifier scanner; plus the `sql` template function of `schema inspect` / `schema diff` (cmd/atlas/internal/cmdlog, reached by a harness compiled into that module with go build -overlay): MySQL / PostgreSQL x connection bound to one schema or not x indent {none, two spaces, tab} x {inspect, diff}: a bound connection prints no schema name; non-trivial = case whose plan has >=1 statement; distinct = (dialect, change set, qualifier, mode)"
 	r.Assumptions = []string{
 		"table, enum-type and (PostgreSQL, in DROP/ALTER/COMMENT ON INDEX) index identifiers are recognised by name: the universe's names never collide with column or constraint names",
 		"change sets the connection-less planner cannot plan (needs a server) are counted as plan errors, not judged",
